@@ -398,9 +398,9 @@ theorem epAlive_poll (s : State) (ready nret) (h : EpAlive s) (henv : epEnvOk s 
   simp only
   have hn : ¬ (ready.length > (emit s (.wait s.evsize kPollTimeMs)).evsize ∨ nret ≠ ready.length) := by
     simp only [emit]; omega
-  rw [if_neg hn]
-  split
-  · have hf := epollFill_dead ready (emit s (.wait s.evsize kPollTimeMs)) []
+  by_cases hz : epHasEvents (nret : Int)
+  · rw [if_pos hz, if_neg hn]
+    have hf := epollFill_dead ready (emit s (.wait s.evsize kPollTimeMs)) []
       (fun p hp => (h.1.2.kernel_cmap (h3 p hp)).1)
     generalize epollFill (emit s (.wait s.evsize kPollTimeMs)) ready [] = r at hf
     obtain ⟨s1, act⟩ := r
@@ -408,7 +408,7 @@ theorem epAlive_poll (s : State) (ready nret) (h : EpAlive s) (henv : epEnvOk s 
     split
     · simp only [emit] at hf ⊢; rw [hf]; exact h.2
     · rw [hf]; exact h.2
-  · exact h.2
+  · rw [if_neg hz]; exact h.2
 
 theorem epAlive_run (ins : List In) (henv : Along epEnvOk (init .epoll) ins) :
     EpAlive (run (init .epoll) ins) := by
